@@ -280,6 +280,12 @@ type C11Plan struct {
 	// record AbortAt (-1: runs to the end).
 	OutPtr  bool `json:"out_ptr,omitempty"`
 	AbortAt int  `json:"abort_at,omitempty"`
+	// RenderOnly (decode only): run B keeps nothing — each record is rendered
+	// to text in the callback, its bank closed, and the texts compared with
+	// run A's. Whatever the library itself caches between records (e.g. time
+	// zones) is then the only thing keeping such state alive across the
+	// plan's collections.
+	RenderOnly bool `json:"render_only,omitempty"`
 }
 
 var errC11Abort = errors.New("c11: callback gives up")
@@ -319,7 +325,7 @@ func (c11Prop) Generate(seed uint64, idx int, tier string) *Plan {
 	if r.P(1, 4) {
 		pl.Dir = "encode"
 	}
-	types := []string{"GCA", "GCA", "GCB", "GCB", "GCC", "GCC", "GCD", "GCD", "GCE", "GCE", "GCE", "GCF", "Maps", "Slices", "Ptrs", "Mixed", "Nested"}
+	types := []string{"GCA", "GCA", "GCB", "GCB", "GCC", "GCC", "GCD", "GCD", "GCE", "GCE", "GCE", "GCF", "Maps", "Slices", "Ptrs", "Mixed", "Nested", "Timed", "Timed", "Nulls", "NullPtrs"}
 	if pl.Dir == "encode" {
 		types = []string{"GCA", "GCB", "GCB", "GCC", "GCD", "GCD", "GCE", "GCE", "Maps", "Mixed"}
 	}
@@ -354,6 +360,7 @@ func (c11Prop) Generate(seed uint64, idx int, tier string) *Plan {
 	}
 	if pl.Dir == "decode" {
 		pl.DropBanks = r.P(1, 4)
+		pl.RenderOnly = !pl.DropBanks && r.P(1, 5)
 		pl.AbortAt = -1
 		if pl.DropBanks && r.P(1, 2) {
 			pl.OutPtr = true
@@ -445,6 +452,16 @@ func (c11Prop) Execute(p *Plan, run *Run) any {
 		return nil
 	}
 
+	if pl.RenderOnly {
+		// keep only the texts of run A: its values would themselves keep alive
+		// whatever they share with later decodes (cached time zones)
+		textsA := make([]string, len(A))
+		for i, v := range A {
+			textsA[i] = Render(v)
+		}
+		A = nil
+		return c11RenderOnly(p, run, bf, target, textsA, total, churnClass)
+	}
 	// ---- run B: the plan's collections
 	fmt.Fprintf(os.Stderr, "@@C11 run-B plan %d\n", p.Idx)
 	schedB := &gcSched{fired: Counter{}, points: Counter{}, doGC: true, every: pl.Every, churn: pl.Churn, at: map[int]bool{}}
@@ -581,6 +598,59 @@ func (c11Prop) Execute(p *Plan, run *Run) any {
 		nfired += v
 	}
 	return map[string]any{"dir": "decode", "type": pl.File.Type, "records": len(A), "gc_points_in_run": total, "collections_fired": nfired, "projected": pl.Project}
+}
+
+// c11RenderOnly is run B of a decode plan in which the caller retains nothing.
+func c11RenderOnly(p *Plan, run *Run, bf *BuiltFile, target reflect.Type, A []string, total int, churnClass string) any {
+	pl := p.C11
+	fmt.Fprintf(os.Stderr, "@@C11 run-B(render-only) plan %d\n", p.Idx)
+	sched := &gcSched{fired: Counter{}, points: Counter{}, doGC: true, every: pl.Every, churn: pl.Churn, at: map[int]bool{}}
+	for _, raw := range pl.GCRaw {
+		sched.at[1+int(raw%uint32(total))] = true
+	}
+	sched.onGC = func(kind string, pt int) {
+		run.Sig("%s|decode-render|%s|%s|%s", pl.File.Type, kind, thirds(pt, total), churnClass)
+	}
+	curGC = sched
+	var texts []string
+	var errB error
+	pan, site := func() (pan any, site string) {
+		defer func() {
+			if r := recover(); r != nil {
+				pan, site = r, panicSite()
+			}
+		}()
+		rd := NewDiskReader(bf.Bytes, pl.Chunks)
+		rd.Yield = gcPoint
+		errB = avro.ReadFile(rd, outFor(target, pl.Chunks.OutPtr), func(val unsafe.Pointer, rb *avro.ResourceBank) error {
+			texts = append(texts, Render(reflect.NewAt(target, val).Elem()))
+			rb.Close()
+			gcPoint("callback")
+			return nil
+		})
+		gcPoint("after-readfile")
+		return nil, ""
+	}()
+	curGC = nil
+	run.Evals++
+	run.Faults.Merge(sched.fired)
+	run.Probes.Merge(sched.points)
+	run.Log.Add("B(render) n=%d err=%v fired=%d", len(texts), errB != nil, sched.nfired)
+	if pan != nil {
+		run.Violation("c11/panic-under-gc", site, fmt.Sprintf("run B (with collections, nothing retained by the caller) panicked where the collection-free run did not: %v", pan), nil)
+		return nil
+	}
+	if errB != nil || len(texts) != len(A) {
+		run.Violation("c11/result-differs-under-gc", "readfile", fmt.Sprintf("run B (with collections, nothing retained) delivered %d records, err=%v; run A delivered %d, err=nil", len(texts), errB, len(A)), nil)
+		return nil
+	}
+	for i, t := range texts {
+		if want := A[i]; t != want {
+			run.Violation("c11/result-differs-under-gc", "readfile", fmt.Sprintf("record %d decoded while collections ran renders as %s; without collections as %s", i, clipN(t, 200), clipN(want, 200)), nil)
+			return nil
+		}
+	}
+	return map[string]any{"dir": "decode", "mode": "render-only", "type": pl.File.Type, "records": len(A), "gc_points_in_run": total, "collections_fired": sched.nfired}
 }
 
 func c11Encode(p *Plan, run *Run, churnClass string) any {
